@@ -33,6 +33,7 @@ type Opts struct {
 type Abnormal struct {
 	Idx  int
 	Kind string // "hang" or "crash"
+	Note string // last par.Note of the worker before it was lost
 	Log  string
 }
 
@@ -50,7 +51,18 @@ var (
 	sets    = map[string]map[string]bool{}
 	current atomic.Int64
 	beat    atomic.Int64
+	note    atomic.Value
 )
+
+// Note records what the worker is doing (reported if the worker hangs or crashes in this case).
+func Note(s string) {
+	note.Store(s)
+	if emitNote != nil {
+		emitNote(s)
+	}
+}
+
+var emitNote func(string)
 
 // Count adds n to a named counter (summed over workers, delivered in Result.Counts).
 func Count(name string, n int64) {
@@ -81,6 +93,7 @@ type line struct {
 	O json.RawMessage     `json:"o,omitempty"`
 	I int                 `json:"i,omitempty"`
 	H *int                `json:"h,omitempty"`
+	N string              `json:"n,omitempty"`
 	C map[string]int64    `json:"c,omitempty"`
 	S map[string][]string `json:"s,omitempty"`
 	D bool                `json:"d,omitempty"`
@@ -163,6 +176,22 @@ func runWorker[T any](n, shard int, o Opts, skip int, mu *sync.Mutex, res *Resul
 	last := -1
 	finished := false
 	hang := -1
+	lastNote := ""
+	merge := func(l line) {
+		mu.Lock()
+		for k, v := range l.C {
+			res.Counts[k] += v
+		}
+		for k, vs := range l.S {
+			if res.Sets[k] == nil {
+				res.Sets[k] = map[string]bool{}
+			}
+			for _, v := range vs {
+				res.Sets[k][v] = true
+			}
+		}
+		mu.Unlock()
+	}
 	for {
 		b, err := rd.ReadBytes('\n')
 		if len(b) > 0 && b[0] == '{' {
@@ -171,8 +200,13 @@ func runWorker[T any](n, shard int, o Opts, skip int, mu *sync.Mutex, res *Resul
 				switch {
 				case l.B != nil:
 					last = *l.B
+					lastNote = ""
+					merge(l)
+				case l.N != "" && l.H == nil:
+					lastNote = l.N
 				case l.H != nil:
 					hang = *l.H
+					lastNote = l.N
 				case l.O != nil:
 					var t T
 					if json.Unmarshal(l.O, &t) == nil {
@@ -182,19 +216,7 @@ func runWorker[T any](n, shard int, o Opts, skip int, mu *sync.Mutex, res *Resul
 					}
 				case l.D:
 					finished = true
-					mu.Lock()
-					for k, v := range l.C {
-						res.Counts[k] += v
-					}
-					for k, vs := range l.S {
-						if res.Sets[k] == nil {
-							res.Sets[k] = map[string]bool{}
-						}
-						for _, v := range vs {
-							res.Sets[k][v] = true
-						}
-					}
-					mu.Unlock()
+					merge(l)
 				}
 			}
 		}
@@ -209,7 +231,7 @@ func runWorker[T any](n, shard int, o Opts, skip int, mu *sync.Mutex, res *Resul
 	mu.Lock()
 	defer mu.Unlock()
 	if hang >= 0 {
-		res.Abnormal = append(res.Abnormal, Abnormal{Idx: hang, Kind: "hang", Log: errb.String()})
+		res.Abnormal = append(res.Abnormal, Abnormal{Idx: hang, Kind: "hang", Note: lastNote, Log: errb.String()})
 		return hang + 1, false
 	}
 	if last < 0 {
@@ -217,7 +239,7 @@ func runWorker[T any](n, shard int, o Opts, skip int, mu *sync.Mutex, res *Resul
 		fmt.Fprintf(os.Stderr, "HARNESS-ERROR: worker %d died before any case: %s\n", shard, errb.String())
 		os.Exit(3)
 	}
-	res.Abnormal = append(res.Abnormal, Abnormal{Idx: last, Kind: "crash", Log: errb.String()})
+	res.Abnormal = append(res.Abnormal, Abnormal{Idx: last, Kind: "crash", Note: lastNote, Log: errb.String()})
 	return last + 1, false
 }
 
@@ -249,6 +271,7 @@ func worker[T any](n, shard, of, skip int, f func(i int) *T, o Opts) {
 		w.Write(append(b, '\n'))
 		wmu.Unlock()
 	}
+	emitNote = func(s string) { emit(line{N: s}) }
 	current.Store(-1)
 	go func() {
 		for {
@@ -256,7 +279,8 @@ func worker[T any](n, shard, of, skip int, f func(i int) *T, o Opts) {
 			c := current.Load()
 			if c >= 0 && time.Since(time.Unix(0, beat.Load())) > o.CaseTimeout {
 				ci := int(c)
-				emit(line{H: &ci})
+				nn, _ := note.Load().(string)
+				emit(line{H: &ci, N: nn})
 				os.Exit(3)
 			}
 		}
@@ -268,7 +292,23 @@ func worker[T any](n, shard, of, skip int, f func(i int) *T, o Opts) {
 		beat.Store(time.Now().UnixNano())
 		current.Store(int64(i))
 		ii := i
-		emit(line{B: &ii})
+		bl := line{B: &ii}
+		cmu.Lock()
+		if len(counts) > 0 {
+			bl.C = counts
+			counts = map[string]int64{}
+		}
+		if len(sets) > 0 {
+			bl.S = map[string][]string{}
+			for k, s := range sets {
+				for v := range s {
+					bl.S[k] = append(bl.S[k], v)
+				}
+			}
+			sets = map[string]map[string]bool{}
+		}
+		cmu.Unlock()
+		emit(bl)
 		if t := f(i); t != nil {
 			b, _ := json.Marshal(t)
 			emit(line{O: b, I: i})
